@@ -20,7 +20,8 @@ IO_MODULES = [
 ]
 
 OPEN_FAULTS = {"eacces": errno.EACCES, "enoent": errno.ENOENT, "emfile": errno.EMFILE}
-WRITE_FAULTS = {"enospc": errno.ENOSPC, "eio": errno.EIO}
+# transient ones too: an interrupted or would-block write that had already stored part of the data
+WRITE_FAULTS = {"enospc": errno.ENOSPC, "eio": errno.EIO, "eintr": errno.EINTR, "eagain": errno.EAGAIN}
 
 
 def norm_path(p):
@@ -266,6 +267,7 @@ class SimFS:
             "crash": True,
             "eacces": evname == "open", "enoent": evname == "open", "emfile": evname == "open",
             "enospc": evname in ("flush", "close_flush"), "eio": evname in ("flush", "close_flush"),
+            "eintr": evname in ("flush", "close_flush"), "eagain": evname in ("flush", "close_flush"),
             "eio_close": evname == "close_flush",
             "short_read": evname == "read",
         }.get(kind, False)
